@@ -58,10 +58,17 @@ func (c06) Gen(r *rand.Rand, tier string, idx int) *core.Plan {
 	w["skew"] = int64(r.IntN(8))
 	w["accuracy"] = int64(core.Pick(r, 0, 1, 5, 0, 2))
 	w["accMillis"] = int64(core.Pick(r, 0, 0, 0, 500, 999))
+	// a second signature by the same signer with its own expiry, verified by the same process in between
+	w["expiryB"] = int64(r.IntN(3))
+	w["expiryAction"] = int64(core.Pick(r, 0, 0, 1)) // log (both validations always reported) / enforce (a failed expiry ends the verification)
 	n := 1 + r.IntN(6)
 	for i := 0; i < n; i++ {
-		// instant: boundary index (0 expiry, 1 leaf end, 2 inter end, 3 root end, 4 far), delta index
-		p.Ops = append(p.Ops, core.Op{Kind: "verify-at", I: []int64{int64(r.IntN(5)), int64(r.IntN(5))}})
+		// instant: boundary index (0 expiry, 1 leaf end, 2 inter end, 3 root end, 4 far, 6 expiry of the second signature), delta index, which signature
+		b := int64(r.IntN(5))
+		if r.IntN(6) == 0 {
+			b = 6
+		}
+		p.Ops = append(p.Ops, core.Op{Kind: "verify-at", I: []int64{b, int64(r.IntN(5)), int64(core.Pick(r, 0, 0, 1))}})
 	}
 	if r.IntN(3) == 0 {
 		p.Ops = append([]core.Op{{Kind: "verify-at", I: []int64{5, 0}}}, p.Ops...) // shortly after signing
@@ -213,6 +220,24 @@ func (l c06) Exec(env *core.Env) *core.Result {
 			res.Violate("HARNESS/sign", fmt.Sprint(counter), "sign: %v", err)
 			return
 		}
+		type c06Sig struct {
+			bytes            []byte
+			expiry           time.Time
+			signedTime, gen  time.Time
+			counter          int64
+		}
+		sigA := &c06Sig{sig, expiry, signedTime, gen, counter}
+		// the second signature: same signer and scheme, no countersignature, its own expiry
+		sigB := &c06Sig{signedTime: time.Now(), counter: 0}
+		if d := []time.Duration{0, time.Hour, 3 * time.Hour}[w["expiryB"]%3]; d > 0 {
+			sigB.expiry = sigB.signedTime.Truncate(time.Second).Add(d + 7*time.Minute)
+		}
+		sigB.bytes, err = world.SignPayload(chain, world.PayloadFor(desc), world.SignOpts{MediaType: format, Scheme: scheme, SigningTime: sigB.signedTime, Expiry: sigB.expiry, Agent: "c06-second"})
+		if err != nil {
+			res.Violate("HARNESS/sign", "second", "sign: %v", err)
+			return
+		}
+		sigs := []*c06Sig{sigA, sigB}
 		// stores and validators
 		store := world.NewScriptedStore()
 		store.Put(storeType, "s", chain.Root().Cert)
@@ -238,7 +263,11 @@ func (l c06) Exec(env *core.Env) *core.Result {
 			stores = append(stores, "tsa:t")
 		}
 		vt := map[int64]string{2: "always", 3: "afterCertExpiry"}[tsaMode]
-		v, err := buildVerifier(vcfg{level: "strict", override: map[string]string{"expiry": "log", "authenticTimestamp": "log", "revocation": "skip"}, verifyTimestamp: vt,
+		expiryAction := "log"
+		if w["expiryAction"] == 1 {
+			expiryAction = "enforce"
+		}
+		v, err := buildVerifier(vcfg{level: "strict", override: map[string]string{"expiry": expiryAction, "authenticTimestamp": "log", "revocation": "skip"}, verifyTimestamp: vt,
 			stores: stores, store: store, validator: &world.ScriptedValidator{}, tsValidator: tsVal})
 		if err != nil {
 			res.Violate("HARNESS/verifier", "", "%v", err)
@@ -256,24 +285,42 @@ func (l c06) Exec(env *core.Env) *core.Result {
 				return ends[b-1]
 			case 5:
 				return time.Now().Add(time.Minute)
+			case 6:
+				if !sigB.expiry.IsZero() {
+					return sigB.expiry
+				}
+				return ends[0]
 			}
 			return t0.Add(200000 * time.Hour)
 		}
-		var instants []time.Time
+		type c06Instant struct {
+			at    time.Time
+			which int
+		}
+		var instants []c06Instant
 		for _, op := range p.Ops {
 			t := boundary(op.Int(0))
-			if op.Int(0) < 4 {
+			if op.Int(0) < 4 || op.Int(0) == 6 {
 				t = t.Add(c06Deltas[op.Int(1)%5])
 			}
-			instants = append(instants, t)
+			instants = append(instants, c06Instant{t, int(op.Int(2) % 2)})
 		}
-		sort.Slice(instants, func(i, j int) bool { return instants[i].Before(instants[j]) })
+		sort.SliceStable(instants, func(i, j int) bool { return instants[i].at.Before(instants[j].at) })
 		config := fmt.Sprintf("scheme=%d fmt=%d ends=%d/%d/%d expiry=%d tsaMode=%d counter=%d skew=%d acc=%d.%03d rogue=%d", w["scheme"], w["format"], w["leafEnd"], w["interEnd"], w["rootEnd"], w["expiry"], tsaMode, counter, w["skew"], w["accuracy"], w["accMillis"], w["rogue"])
-		for _, at := range instants {
+		for _, inst := range instants {
+			at := inst.at
 			if d := at.Sub(time.Now()); d > 0 {
 				rt.Sleep(d)
 			}
 			tv := time.Now()
+			cur := sigs[inst.which]
+			sig, expiry, signedTime, gen, counter := cur.bytes, cur.expiry, cur.signedTime, cur.gen, cur.counter
+			rogue := w["rogue"]
+			if inst.which == 1 {
+				rogue = 0
+				res.Probe("second_signature_verified")
+			}
+			config := fmt.Sprintf("%s sig=%d expiryAction=%s", config, inst.which, expiryAction)
 			outcome, verr := v.Verify(ctx, desc, sig, notation.VerifierVerifyOptions{ArtifactReference: "registry.example/repo@" + desc.Digest.String(), SignatureMediaType: format})
 			var exp, ts *notation.ValidationResult
 			if outcome != nil {
@@ -303,6 +350,22 @@ func (l c06) Exec(env *core.Env) *core.Result {
 				return ">>"
 			}
 			pos := fmt.Sprintf("expiry%s leaf%s inter%s root%s", rel(expiry), rel(ends[0]), rel(ends[1]), rel(ends[2]))
+			if exp != nil && ts == nil && expiryAction == "enforce" && exp.Error != nil {
+				// an enforced expiry failure ends the verification before the authentic timestamp validation;
+				// the expiry verdict itself is still judged below
+				if verr == nil {
+					res.Violate("C06/enforced-expiry-failure-not-returned", config, "expiry failed under an enforcing level but Verify returned no error")
+				}
+				wantExpiryFail := !expiry.IsZero() && !tv.Before(expiry)
+				if !wantExpiryFail {
+					res.Violate("C06/unexpired-signature-failed-expiry", config+" at "+pos, "verification at %s, expiry %s: expiry result error=%v", tv.Format(time.RFC3339Nano), fmtT(expiry), exp.Error)
+				}
+				res.Nontrivial = true
+				res.Probe("enforced_expiry_failure_ended_verification")
+				trace = append(trace, map[string]any{"at": tv.Sub(t0).String(), "position": pos, "signature": inst.which, "expiry_failed": true, "ended": true})
+				sim.Abstract(fmt.Sprint(config, pos, "expiry-enforced-failure"))
+				continue
+			}
 			if exp == nil || ts == nil {
 				res.Violate("C06/validation-missing", config, "expiry / authenticTimestamp result missing (err %v, results %d)", verr, func() int {
 					if outcome == nil {
@@ -327,7 +390,7 @@ func (l c06) Exec(env *core.Env) *core.Result {
 			if scheme == signature.SigningSchemeX509SigningAuthority {
 				st := signedTime.Truncate(time.Second)
 				wantTSPass = allValidAt(st)
-				why = fmt.Sprintf("signing-authority: every certificate must have been valid at the authentic signing time %s (rogue=%d)", st.Format(time.RFC3339), w["rogue"])
+				why = fmt.Sprintf("signing-authority: every certificate must have been valid at the authentic signing time %s (rogue=%d)", st.Format(time.RFC3339), rogue)
 				if !wantTSPass {
 					res.Probe("signing_authority_time_outside_a_window")
 				}
@@ -370,7 +433,7 @@ func (l c06) Exec(env *core.Env) *core.Result {
 			}
 			res.Nontrivial = true
 			key := config + " at " + pos
-			trace = append(trace, map[string]any{"at": tv.Sub(t0).String(), "position": pos, "expiry_failed": exp.Error != nil, "authentic_timestamp_passed": ts.Error == nil, "model": why})
+			trace = append(trace, map[string]any{"at": tv.Sub(t0).String(), "position": pos, "signature": inst.which, "expiry_failed": exp.Error != nil, "authentic_timestamp_passed": ts.Error == nil, "model": why})
 			sim.Abstract(fmt.Sprint(key, exp.Error != nil, ts.Error == nil))
 			if wantExpiryFail != (exp.Error != nil) {
 				class := "C06/expired-signature-passed-expiry"
